@@ -52,6 +52,14 @@ TABLE: list[ClassDef] = [
     ClassDef("Base", "ASTNode"),
     ClassDef("LeafA", "Base", [FieldDef("v", "int", "int", "0")]),
     ClassDef("LeafB", "Base", [FieldDef("v", "int", "int", "0")]),
+    # a child field that is no constructor argument: every instance gets a leaf of its own from a factory
+    ClassDef("NoInit", "Base", [FieldDef("kid", "Base | None", "opt", "None", classes=ANY),
+                                FieldDef("auto", "LeafA", "one", None, init=False,
+                                         extra_args="default_factory=_auto_leaf", classes=("LeafA",)),
+                                FieldDef("last", "Base | None", "opt", "None", classes=ANY)]),
+    # a class that overrides the default of the inherited `origin` field
+    ClassDef("Synth", "Base", [FieldDef("v", "int", "int", "0")],
+             extra_body="    origin: Origin = field(default=SYNTH_ORIGIN, kw_only=True)\n"),
     ClassDef("SubLeafA", "LeafA", [FieldDef("extra", "str", "str", '""')]),
     # a third inheritance level, a class-level constant (ClassVar: not a dataclass field) and an overridden default
     ClassDef("SubSubLeafA", "SubLeafA", [FieldDef("v", "int", "int", "5"), FieldDef("deep", "bool", "bool", "False")],
@@ -156,6 +164,8 @@ TABLE: list[ClassDef] = [
             FieldDef("ka", "Base | None", "opt", "None", classes=ANY),
             FieldDef("kb", "Base | None", "opt", "None", classes=ANY),
         ],
+        # attributes that are no dataclass fields: a plain property and a class-level constant
+        extra_body="    KIND: ClassVar[str] = \"uni\"\n\n    @property\n    def alias(self):\n        return self.one\n",
     ),
     ClassDef(
         "Seq", "Base",
@@ -278,6 +288,14 @@ from typing import Any, ClassVar, Literal
 
 from mashumaro.types import SerializableType
 from pyoak.node import ASTNode
+from pyoak.origin import GeneratedCodeOrigin, MemoryTextSource, Origin
+
+# the default origin of a class that declares one of its own ("generated unless told otherwise")
+SYNTH_ORIGIN = GeneratedCodeOrigin(MemoryTextSource("synthetic", source_uri="mem://synth"))
+
+
+def _auto_leaf():
+    return LeafA(v=77)
 
 
 class BombError(Exception):
